@@ -8,11 +8,11 @@
 EXTENDS Daemon, Json, IOUtils
 
 CONSTANTS Cids, MaxLen, GenOn, Fam,    \* Fam: "all" | "c04" | "c05" | "c09" - which stimuli the generator mixes
-          MaxKill, MaxDetach, MaxEnv, MaxFail, NPS
+          MaxKill, MaxDetach, MaxEnv, MaxFail, MaxDbf, NPS
 VARIABLES hist, bud
 
 MCCloud == [e \in Enis |-> IF e = 1 THEN [on |-> TRUE, as |-> {1, 2}] ELSE IF e = 2 THEN [on |-> TRUE, as |-> {3}] ELSE NoEni]
-MCInit == /\ Init /\ hist = <<>> /\ bud = [kill |-> 0, detach |-> 0, env |-> 0, fail |-> 0, started |-> FALSE]
+MCInit == /\ Init /\ hist = <<>> /\ bud = [kill |-> 0, detach |-> 0, env |-> 0, fail |-> 0, dbf |-> 0, started |-> FALSE]
 H(x) == hist' = IF GenOn THEN Append(hist, x) ELSE hist
 Keep == UNCHANGED bud
 Min(S) == CHOOSE x \in S : \A y \in S : x <= y
@@ -67,16 +67,22 @@ Step ==
            /\ RpcRet(r, FALSE, IF rpc[r].found THEN "canceled" ELSE "invalid", 0, 0)
            /\ bud' = [bud EXCEPT !.fail = @ + (IF rpc[r].found THEN 1 ELSE 0)]
            /\ H(IF rpc[r].found THEN [a |-> "cancel", p |-> rpc[r].p] ELSE [a |-> "open", p |-> rpc[r].p])
+        \/ /\ rpc[r].wrec = NoRec /\ wr.p # rpc[r].p /\ rpc[r].p \in dbf                               \* its database write failed: error reply
+           /\ RpcRet(r, FALSE, "error", 0, 0) /\ Keep /\ H([a |-> "open", p |-> rpc[r].p])
   \/ \E r \in Rpcs : rpc[r].st = "in" /\ rpc[r].k = "del" /\
         \/ /\ rpc[r].eff /\ ~rpc[r].wdel /\ wr = NoWr /\ DelBegin(rpc[r].p) /\ Keep /\ H([a |-> "obs"])
         \/ /\ (rpc[r].eff => rpc[r].wdel) /\ wr.p # rpc[r].p
            /\ RpcRet(r, TRUE, "", 0, 0) /\ Keep /\ H([a |-> "open", p |-> rpc[r].p])
+        \/ /\ rpc[r].eff /\ ~rpc[r].wdel /\ wr.p # rpc[r].p /\ bud.dbf > 0                              \* its delete failed: error reply
+           /\ RpcRet(r, FALSE, "error", 0, 0) /\ Keep /\ H([a |-> "open", p |-> rpc[r].p])
   \/ \E r \in Rpcs : rpc[r].st = "in" /\ rpc[r].k = "get" /\
         LET d == disk[rpc[r].p] IN
         /\ IF rpc[r].found /\ d # NoRec /\ d.c = rpc[r].c THEN RpcRet(r, TRUE, "", d.e, d.a)
            ELSE RpcRet(r, rpc[r].found, IF rpc[r].found THEN "" ELSE "invalid", 0, 0)
         /\ Keep /\ H([a |-> "open", p |-> rpc[r].p])
   \/ wr # NoWr /\ WriteEnd(wr.p, TRUE) /\ Keep /\ H([a |-> "obs"])
+  \/ wr # NoWr /\ wr.by = "rpc" /\ bud.dbf < MaxDbf /\ WriteEnd(wr.p, FALSE)                      \* the bolt write fails
+        /\ bud' = [bud EXCEPT !.dbf = @ + 1] /\ H([a |-> "dbfault", op |-> IF wr.rec = NoRec THEN "del" ELSE "put"])
   (* garbage collection *)
   \/ On({"c04", "c09"}) /\ GcCall /\ Keep /\ H([a |-> "gc"])
   \/ gc.st = "called" /\ (\A r \in Rpcs : rpc[r].st # "in") /\ LocalPods({ p \in Pods : pod[p].loc = "run" }, FALSE) /\ Keep /\ H([a |-> "obs"])
@@ -95,7 +101,7 @@ Step ==
 
 Running == [api |-> TRUE, loc |-> "run", sticky |-> FALSE, cached |-> FALSE]
 MCStart == /\ cloud' = MCCloud /\ pod' = [p \in Pods |-> Running]          \* Reset, with every pod running on the node
-           /\ UNCHANGED <<disk, wr, acked, rpc, gc, gcn, apierr, conv, up>>
+           /\ UNCHANGED <<disk, wr, acked, rpc, gc, gcn, apierr, conv, up, dbf>>
 PodSteps == [i \in 1..Cardinality(Pods) |-> [a |-> "pod", p |-> i, api |-> TRUE, loc |-> "run", sticky |-> FALSE, cached |-> FALSE]]
 Emit(h) == Serialize(ToJson(h) \o "\n", IOEnv.VERIF_SCEN,
                      [format |-> "TXT", charset |-> "UTF-8", openOptions |-> <<"WRITE", "CREATE", "APPEND">>]).exitValue = 0
